@@ -5,14 +5,15 @@ From DV Require Export RightsSpec AuthzRemote LocalJson Run_C01 Run_C02.
 (* One local operation of author `me` on an instance A, and a peer B holding the same room
    definitions, the same data model and the same prior rows, to which the rows A writes are handed
    the way synchronisation does it.
-   CWrite: a one-row mutation (create / update / move) that also adds `nadd` references from the row
-     and removes the stored references whose authors are listed in `rm`.
+   CWrite: a one-row mutation (create / update / move), validated at now = its date (one clock), that
+     also adds `nadd` references from the row and removes the stored references whose authors are
+     listed in h_edge_dels.
    CDelNode: deletion of a row.  CDelRef: deletion of one reference of a row (the source row is
      re-dated and signed again by the caller).
    CJson: creation of a row from literal field values (request text -> JSON content -> peer's
      validate_json_for_entity). *)
 Inductive c12case :=
-| CWrite (defs : list (uid * list event)) (dm : dmodel) (me : key) (h : mhead) (nadd : N) (rm : list key)
+| CWrite (defs : list (uid * list event)) (dm : dmodel) (me : key) (h : mhead) (nadd : N)
 | CDelNode (defs : list (uid * list event)) (me : key) (now : Z) (n : dnode)
 | CDelRef (defs : list (uid * list event)) (me : key) (now : Z) (src : dnode) (edge_author : key)
 | CJson (fs : list lfield) (lits : list (N * lit)).
@@ -61,18 +62,22 @@ Definition del_sends (n : dnode) : option uid := match dn_kind n with KAuthLike 
 (* what the model says the implementation does: [local verdict; what the peer stored ...] *)
 Definition run_C12 (c : c12case) : list Z :=
   match c with
-  | CWrite defs dm me h nadd rm =>
+  | CWrite defs dm me h nadd =>
       let rooms := build_rooms defs in
-      let local := verdict_code (validate_entity me rooms (MEnt h [])) in
+      let rm := h_edge_dels h in
+      let local := verdict_code (validate_entity me (h_date h) rooms (MEnt h [])) in
       match write_sends h with
       | None => [local; -1; 0; 0]
       | Some rid =>
           let st := peer_store h rm in
           let tombs := map (ref_tombstone me rid (h_date h)) (s_edges st) in
           let adds := map (added_ref me h) (upto (N.to_nat nadd)) in
+          let acc := accept_node rooms dm rid st (sent_row me h) in
+          (* the rows the peer holds when the references arrive: the new version if it was accepted *)
+          let st2 := {| s_nodes := if acc then [sent_row me h] else old_row h; s_edges := []; s_ndels := []; s_edels := [] |} in
           [local;
-           zb (accept_node rooms dm rid st (sent_row me h));
-           match find_room rooms rid with Some r => count (edge_ok r) adds | None => 0 end;
+           zb acc;
+           match find_room rooms rid with Some r => count (edge_ok r rid st2) adds | None => 0 end;
            count (edel_ok rooms st) tombs]
       end
   | CDelNode defs me now n =>
@@ -109,26 +114,20 @@ Definition run_C12 (c : c12case) : list Z :=
   end.
 
 (* ================= the property's own oracle, on what the IMPLEMENTATION answered =================
-   violations: 0 = local and peer verdicts differ and the case is in no listed class;
-     1 = a field explicitly set to null is stored as "short":null, which peers refuse;
-     2 = a Json field holding a scalar (literal or default), which peers refuse;
-     3 = a mutation that removes another author's reference is accepted locally with the own-rows
-         right; peers refuse the tombstone (they ask for the all-rows right) *)
+   violations: 0 = local and peer verdicts differ and the case is in no listed class (this includes
+     the repaired defects: an explicit null refused by peers; a mutation removing another author's
+     reference accepted locally with the own-rows right while peers refuse the tombstone);
+     2 = a Json field holding a scalar (literal or default), which peers refuse *)
 Definition is_scalar (v : jval) : bool := match v with JObj | JArr => false | _ => true end.
 
 Definition violations12 (c : c12case) (obs : list Z) : list Z :=
   match c, obs with
-  | CWrite defs dm me h nadd rm, [l; n; a; t] =>
+  | CWrite defs dm me h nadd, [l; n; a; t] =>
       match write_sends h with
       | None => []
       | Some _ =>
-          let all_in := Z.eqb n 1 && Z.eqb a (Z.of_N nadd) && Z.eqb t (Z.of_nat (length rm)) in
-          if Z.eqb l 0 then
-            if all_in then []
-            else if Z.eqb n 1 && Z.eqb a (Z.of_N nadd) && existsb (fun k => negb (N.eqb k me)) rm &&
-                    Z.leb (count (fun k => N.eqb k me) rm) t then [3]
-            else [0]
-          else if all_in then [0] else []
+          let all_in := Z.eqb n 1 && Z.eqb a (Z.of_N nadd) && Z.eqb t (Z.of_nat (length (h_edge_dels h))) in
+          if Z.eqb l 0 then (if all_in then [] else [0]) else (if all_in then [0] else [])
       end
   | CDelNode defs me now n, [l; t] =>
       match del_sends n with
@@ -143,11 +142,10 @@ Definition violations12 (c : c12case) (obs : list Z) : list Z :=
       end
   | CJson fs lits, l :: r :: kinds =>
       if Z.eqb l 1 && negb (Z.eqb r 1) then
-        let nulls := existsb (Z.eqb 0) kinds in
         let scal := existsb (fun p => match f_type (lf (fst p)) with
-                                      | TJson => Z.leb 0 (snd p) && Z.leb (snd p) 5
+                                      | TJson => Z.leb 1 (snd p) && Z.leb (snd p) 5
                                       | _ => false end) (combine fs kinds) in
-        (if nulls then [1] else []) ++ (if scal then [2] else []) ++ (if nulls || scal then [] else [0])
+        if scal then [2] else [0]
       else []
   | _, _ => [0]
   end.
